@@ -27,3 +27,33 @@ package signing
 //@   ensures err == nil ==> ownDraw(box(c.state.opening), old(shk(c.prng)), shk(c.prng))
 //@   ensures err == nil && has(c.cks, c.SharingID()) ==> result.BigRCommitment == res(c.cks[c.SharingID()].CommitWithWitness(c.state.bigR.Bytes(), c.state.opening), 0)
 //@   ensures c.prng == old(c.prng)
+
+//@ pure func lOth(c *Cosigner, a Int) Int = seqat(c.ctx.OtherPartiesOrdered(), a, int)
+//@ pure func r2Of(inb V, id sharing.ID) V = res(inb.Get(id), 0)
+
+// Round 3 (C01, C04): a partial signature is produced only if, for EVERY other party, the nonce R_j it opened matches
+// the commitment it sent in round 1 (opened under THAT party's commitment key) and its discrete-log proof for R_j
+// verifies in a clone of the context frozen before the proofs were made; a failing check blames that party. The
+// aggregate nonce is the ordered combination of this party's R with the R_j of ALL other parties, the challenge is
+// recomputed from (aggregate R, group public key, message), and the partial signature is ComputePartialSignature of
+// exactly these.
+//@ func (*Cosigner).Round3
+//@   property C01, C04
+//@   ghostvar rsum map[int]typeof(c.state.bigR)
+//@   ensures err == nil ==> forall a Int :: 0 <= a && a < seqlen(c.ctx.OtherPartiesOrdered()) ==> msgOK(c, inb, lOth(c, a))
+//@   ensures err == nil ==> forall a Int :: 0 <= a && a < seqlen(c.ctx.OtherPartiesOrdered()) ==> c.cks[lOth(c, a)].Open(old(c.state.theirBigRCommitments)[lOth(c, a)], r2Of(inb, lOth(c, a)).BigR.X.Bytes(), r2Of(inb, lOth(c, a)).BigROpening) == nil
+//@   ensures err == nil ==> forall a Int :: 0 <= a && a < seqlen(c.ctx.OtherPartiesOrdered()) ==> dlogVerify(c.state.ctxFrozenBeforeDlogProof.Clone(), c.niDlogScheme, lOth(c, a), r2Of(inb, lOth(c, a)).BigRProof, r2Of(inb, lOth(c, a)).BigR, c.state.quorumBytes) == nil
+//@   ensures err == nil ==> rsum[0] == old(c.state.bigR)
+//@   ensures err == nil ==> c.state.bigR == rsum[seqlen(c.ctx.OtherPartiesOrdered())]
+//@   ensures err == nil ==> forall a Int :: 0 <= a && a < seqlen(c.ctx.OtherPartiesOrdered()) ==> rsum[a+1] == rsum[a].Op(r2Of(inb, lOth(c, a)).BigR.X)
+//@   ensures err == nil ==> e == res(c.variant.ComputeChallenge(c.state.bigR, c.shard.PublicKey().Value(), message), 0)
+//@   loop range(c.ctx.OtherPartiesOrdered())
+//@     invariant forall a Int :: 0 <= a && a < seqlen(c.ctx.OtherPartiesOrdered()) ==> msgOK(c, inb, lOth(c, a))
+//@     invariant c.state.theirBigRCommitments == old(c.state.theirBigRCommitments) && c.cks == old(c.cks) && c.state.ctxFrozenBeforeDlogProof == old(c.state.ctxFrozenBeforeDlogProof) && c.niDlogScheme == old(c.niDlogScheme) && c.state.quorumBytes == old(c.state.quorumBytes) && c.ctx == old(c.ctx)
+//@     invariant forall a Int :: 0 <= a && a < $i ==> c.cks[lOth(c, a)].Open(old(c.state.theirBigRCommitments)[lOth(c, a)], r2Of(inb, lOth(c, a)).BigR.X.Bytes(), r2Of(inb, lOth(c, a)).BigROpening) == nil
+//@     invariant forall a Int :: 0 <= a && a < $i ==> dlogVerify(c.state.ctxFrozenBeforeDlogProof.Clone(), c.niDlogScheme, lOth(c, a), r2Of(inb, lOth(c, a)).BigRProof, r2Of(inb, lOth(c, a)).BigR, c.state.quorumBytes) == nil
+//@     invariant rsum[0] == old(c.state.bigR) && rsum[$i] == c.state.bigR && forall a Int :: 0 <= a && a < $i ==> rsum[a+1] == rsum[a].Op(r2Of(inb, lOth(c, a)).BigR.X)
+//@   loop range(c.ctx.OtherPartiesOrdered())#2
+//@     invariant c.ctx == old(c.ctx) && c.state.bigR == rsum[seqlen(c.ctx.OtherPartiesOrdered())]
+//@   ghostset after "if err := network.ValidateIncomingMessages(c, c.ctx.OtherPartiesOrdered(), inb); err != nil {": rsum[0] = c.state.bigR
+//@   ghostset after "c.state.bigR = c.state.bigR.Op(theirBigR.X)": rsum[$i+1] = c.state.bigR
